@@ -754,6 +754,24 @@ func genFull(rng *rand.Rand, p *world.Produced, id int) (Case, []world.Action) {
 // Run is the check entry point.
 func Run(r *vk.Run) {
 	world.Silence()
+	// The whole check runs with TMPDIR on another file system than the nodes' home directories when the machine has
+	// one (the layout of every machine with a tmpfs /tmp): where the node stages the files it saves at a clean stop is
+	// its business, but what it saves must be there after the restart on such a layout too.
+	if other := world.DirOnOtherFS(vk.Root()); other != "" {
+		old, had := os.LookupEnv("TMPDIR")
+		os.Setenv("TMPDIR", other)
+		defer func() {
+			if had {
+				os.Setenv("TMPDIR", old)
+			} else {
+				os.Unsetenv("TMPDIR")
+			}
+			os.RemoveAll(other)
+		}()
+		r.Set("tmpdir_on_other_file_system_than_node_homes", other)
+	} else {
+		r.Count("tmpdir_on_other_file_system_not_exercised", 1)
+	}
 	r.Rule = "seeded interleavings on (a) a real aggregator: {produce non-empty/empty, one header-submission iteration, one data-submission iteration (each with outcome accept | prefix | error | ack lost | timed out), inclusion pass of the real DAIncluderLoop, clean restart (SaveCache), crash restart; in the crafted fault cases the inclusion loop is held (S) while three blocks are accepted, so that the whole pass that includes them runs with the fault armed}; (b) a real full node fed through DA only: blobs of a proposer chain placed into DA heights in generated groupings and orders, scans by the real RetrieveLoop, inclusion passes, clean and crash restarts. Monitors at the SetFinal call and at the persist write give the order finalize -> persist -> report; soundness is judged against the contents of the DA double; bounded liveness = three clean rounds after faults stop. non-trivial = DA-included height advanced >= 2 and >= 3 (aggregator) / >= 2 (full node) kinds of actors interleaved; distinct by action list. Two generated cases in five (and a copy of every crafted clean-stop case) run with a db_path other than the default (custom-db, a/b); where the node keeps its cache snapshots is the node's business: the harness only calls SaveCache and, for a crash, empties the node's root directory (the database itself is in memory). Separate trigger regions: aggregator crash with accepted-but-not-included blocks (C07-marks-lost-on-crash), repeated tx lists (C07-commitment-keyed-marks)"
 	r.Assume("DA double: accepted = stored by the double; a full node's 'observed' = blob present at a DA height not above the double's current height")
 	r.Assume("SetFinal never fails in these runs (its failure terminates the inclusion loop by design)")
